@@ -43,15 +43,11 @@ Proof. intros [H|[H|[H|H]]]; subst c; cbn; unfold unamb; auto. Qed.
 
 Definition subst1 (x : sch) (new : pystr) (c : sch) : pystr := if sch_eqb x c then new else [c].
 
-Lemma replace1 x new : forall s f, (List.length s < f)%nat ->
-  sch_replace_fuel f s [x] new = flat_map (subst1 x new) s.
-Proof.
-  induction s as [|c r IH]; intros f Hf; destruct f as [|f]; cbn in *; try lia; [reflexivity|].
-  unfold subst1 at 1. destruct (sch_eqb x c); cbn; rewrite IH by lia; reflexivity.
-Qed.
-
 Lemma sch_replace1 s x new : sch_replace s [x] new = flat_map (subst1 x new) s.
-Proof. unfold sch_replace. apply replace1. lia. Qed.
+Proof.
+  unfold sch_replace. induction s as [|c r IH]; cbn [sch_rep flat_map sch_prefix]; [reflexivity|].
+  unfold subst1 at 1. destruct (sch_eqb x c); cbn [List.length]; rewrite IH; reflexivity.
+Qed.
 
 Lemma flat_letters x new w : (forall c, sch_eqb x (SL c) = false) -> flat_map (subst1 x new) (map SL w) = map SL w.
 Proof.
@@ -177,4 +173,104 @@ Proof.
   rewrite !atoms_N, (atoms_unamb _ Hu), (atoms_unamb _ (unamb_rc _ Hu)), codes_of_N.
   unfold vector_structure, vector_structure_sig. cbn [option_map]. f_equal.
   all: rewrite ?app_nil_r, <- ?app_assoc; reflexivity.
+Qed.
+
+(* ---------- replace() with a needle that starts with a marker ------------------------------------------ *)
+
+Lemma sch_eqb_refl c : sch_eqb c c = true.
+Proof. destruct c; cbn; auto using Ascii.eqb_refl. destruct c; reflexivity. Qed.
+
+Lemma sch_prefix_app p : forall r, sch_prefix p (p ++ r) = Some r.
+Proof. induction p as [|x p IH]; intros r; cbn; [destruct r; reflexivity|]. now rewrite sch_eqb_refl. Qed.
+
+Definition marker (m : sch) : Prop := forall c, sch_eqb m (SL c) = false.
+
+Lemma rep_letters m o new w : marker m -> forall s,
+  sch_rep (map SL w ++ s) (m :: o) new 0 = map SL w ++ sch_rep s (m :: o) new 0.
+Proof.
+  intros Hm. induction w as [|c w IH]; intros s; cbn [map app]; [reflexivity|].
+  cbn [sch_rep sch_prefix]. rewrite Hm. now rewrite IH.
+Qed.
+
+Lemma rep_skip old new : forall x s, sch_rep (x ++ s) old new (List.length x) = sch_rep s old new 0.
+Proof. induction x as [|c x IH]; intros s; cbn [app List.length sch_rep]; [destruct s; reflexivity|apply IH]. Qed.
+
+Lemma rep_match m o new s : sch_rep ((m :: o) ++ s) (m :: o) new 0 = new ++ sch_rep s (m :: o) new 0.
+Proof.
+  cbn [app sch_rep]. change (m :: o ++ s) with ((m :: o) ++ s). rewrite sch_prefix_app.
+  now rewrite rep_skip.
+Qed.
+
+Lemma rep_letters_only m o new w : marker m -> sch_rep (map SL w) (m :: o) new 0 = map SL w.
+Proof. intros Hm. rewrite <- (app_nil_r (map SL w)), (rep_letters m o new w Hm). cbn. now rewrite app_nil_r. Qed.
+
+Lemma rc_Ns k : sch_rc (Ns k) = Ns k.
+Proof.
+  unfold sch_rc, Ns. rewrite map_map. cbn [sch_compl]. rewrite <- map_rev, rev_repeat.
+  induction k; cbn; congruence.
+Qed.
+
+(* AbstractPart.structure() as regenerated, for a part class with a signature of IUPAC letters: its
+   text reads as Typing.part_structure of the signature read through the letter map *)
+Theorem AbstractPart_structure_eq c wu wd :
+  Forall unamb (esite (pc_enz c)) -> pc_sig c = (map SL wu, map SL wd) ->
+  exists t, AbstractPart_structure c = Ok t /\
+    sch_tok t = Some (part_structure (pc_role c) (pc_enz c)
+                        (map (fun x => Atom (codes_of x)) wu) (map (fun x => Atom (codes_of x)) wd)).
+Proof.
+  intros Hu Hsig. unfold AbstractPart_structure, sch_id, enz_is_5overhang. cbv zeta. rewrite Hsig. cbn [bind].
+  set (e := pc_enz c) in *.
+  change (sch_of_string "N*"%string) with [SL cN; SStar].
+  assert (Hov : enz_ovhgseq e = Ns (eovh e)) by (unfold enz_ovhgseq, Ns; now rewrite <- repeat_map).
+  rewrite Hov, rc_Ns, rc_form, elucidate_form.
+  unfold fmt_caret_under, fmt_under_caret, fmt_group_open, fmt_close_group, sch_replace.
+  assert (Mc : marker SCaret) by (intros x; reflexivity).
+  assert (Mu : marker SUnder) by (intros x; reflexivity).
+  (* the two replacements *)
+  assert (Eup : forall new, sch_rep (map SL (esite e) ++ Ns (eoff e) ++ [SCaret] ++ Ns (eovh e) ++ [SUnder; SL cN])
+                                    ([SCaret] ++ Ns (eovh e) ++ [SUnder]) new 0
+                            = map SL (esite e) ++ Ns (eoff e) ++ new ++ [SL cN]).
+  { intros new. cbn [app]. rewrite (rep_letters SCaret _ new (esite e) Mc). unfold Ns at 1 3.
+    rewrite (rep_letters SCaret _ new (repeat cN (eoff e)) Mc). fold (Ns (eoff e)).
+    replace (SCaret :: Ns (eovh e) ++ [SUnder; SL cN]) with ((SCaret :: Ns (eovh e) ++ [SUnder]) ++ map SL [cN])
+      by (cbn [app map]; now rewrite <- app_assoc).
+    rewrite rep_match, (rep_letters_only SCaret _ new [cN] Mc). reflexivity. }
+  assert (Edown : forall new, sch_rep ([SL cN; SUnder] ++ Ns (eovh e) ++ [SCaret] ++ Ns (eoff e) ++ map SL (rc_codes (esite e)))
+                                      ([SUnder] ++ Ns (eovh e) ++ [SCaret]) new 0
+                              = [SL cN] ++ new ++ Ns (eoff e) ++ map SL (rc_codes (esite e))).
+  { intros new. change ([SL cN; SUnder] ++ ?x) with (map SL [cN] ++ (SUnder :: x)).
+    cbn [app]. change (SL cN :: ?x) with (map SL [cN] ++ x) at 1.
+    rewrite (rep_letters SUnder _ new [cN] Mu).
+    replace (SUnder :: Ns (eovh e) ++ SCaret :: Ns (eoff e) ++ map SL (rc_codes (esite e)))
+      with ((SUnder :: Ns (eovh e) ++ [SCaret]) ++ map SL (repeat cN (eoff e) ++ rc_codes (esite e)))
+      by (cbn [app]; rewrite <- app_assoc, map_app; reflexivity).
+    rewrite rep_match, (rep_letters_only SUnder _ new _ Mu), map_app. reflexivity. }
+  rewrite !Eup, !Edown.
+  unfold pc_is_module, pc_is_vector, part_structure. destruct (pc_role c).
+  - (* module part *)
+    eexists. split; [reflexivity|].
+    cbn [List.concat]. rewrite ?app_nil_r. repeat rewrite <- app_assoc. cbn [app]. unfold Ns.
+    rewrite <- (app_nil_r (map SL (rc_codes (esite e)))).
+    rewrite tok_letters' by (apply nostar_app; exact I).
+    rewrite tok_letters' by exact I. cbn [sch_tok].
+    rewrite tok_letters' by exact I. cbn [sch_tok].
+    rewrite tok_letters' by exact I. cbn [sch_tok].
+    rewrite tok_letters' by (apply nostar_app; exact I).
+    rewrite tok_letters' by exact I. cbn [sch_tok option_map].
+    rewrite !atoms_N, (atoms_unamb _ Hu), (atoms_unamb _ (unamb_rc _ Hu)), codes_of_N.
+    unfold module_structure_sig. f_equal.
+    all: rewrite ?app_nil_r; repeat rewrite <- app_assoc; reflexivity.
+  - (* vector part *)
+    eexists. split; [reflexivity|].
+    cbn [List.concat]. rewrite ?app_nil_r. repeat rewrite <- app_assoc. cbn [app]. unfold Ns.
+    cbn [sch_tok].
+    rewrite tok_letters' by exact I. cbn [sch_tok]. repeat rewrite <- app_assoc.
+    rewrite tok_letters' by (apply nostar_app; exact I).
+    rewrite tok_letters' by exact I. cbn [sch_tok].
+    rewrite tok_letters' by (apply nostar_app; exact I).
+    rewrite tok_letters' by exact I. cbn [sch_tok].
+    rewrite tok_letters' by exact I. cbn [sch_tok option_map].
+    rewrite !atoms_N, (atoms_unamb _ Hu), (atoms_unamb _ (unamb_rc _ Hu)), codes_of_N.
+    unfold vector_structure_sig. f_equal.
+    all: rewrite ?app_nil_r; repeat rewrite <- app_assoc; reflexivity.
 Qed.
